@@ -45,7 +45,6 @@ import (
 	"math/rand"
 	"regexp"
 	"runtime"
-	"runtime/debug"
 	"strconv"
 	"strings"
 	"sync"
@@ -783,9 +782,6 @@ func TestC39(t *testing.T) {
 	nLight := r.N(120, 2000)
 	total := nExh + nLight
 
-	// the workload allocates a few short-lived objects per Gate call; a larger GC target keeps the
-	// 16 workers from spending their time in the collector
-	defer debug.SetGCPercent(debug.SetGCPercent(800))
 	workers := runtime.NumCPU()
 	if workers > 16 {
 		workers = 16
